@@ -85,6 +85,18 @@ class SECoPError(RuntimeError):
             return f'{prefix}: {super().__str__()}'
         return super().__str__()
 
+    def copy(self):
+        """a copy with its own list of raising methods
+
+        to be stored (e.g. as readerror of a parameter), while the exception itself
+        propagates further and gets more raising methods appended
+        """
+        result = type(self).__new__(type(self))
+        result.__dict__.update(self.__dict__)
+        result.args = self.args
+        result.raising_methods = list(self.raising_methods or ())
+        return result
+
     def __eq__(self, other):
         return type(self) is type(other) and self.args == other.args and self.kwds == other.kwds
 
